@@ -1,6 +1,1038 @@
-//! Property C08: correspondence and oracle (stub: nothing built yet).
-use crate::report::Report;
+//! Property C08: static evaluation never disagrees with real execution.
+//!
+//! Every case is one expression, as wire text (BUILDING-AST.md). For each case:
+//!  (1) CORRESPONDENCE — the three answers of the REAL `darklua_core::process::Evaluator`
+//!      (`evaluate`, `has_side_effects` with and without `assume_pure_metamethods`,
+//!      `can_return_multiple_values`) are compared bit-exactly with the Lean model
+//!      (`Rules/Evaluator.lean` over `Float`, op `c08.eval`), the defs the theorems are about;
+//!  (2) ORACLE, independent of the model — `return <e>` is executed on the Lean reference
+//!      semantics (`sem.run`) in several environments binding the opaque leaves (`x`, `t`, `f`,
+//!      `...`) to tables with effectful metamethods / numbers / strings / nil; when the run is
+//!      error-free the returned value must be the REAL evaluator's definite answer, when the
+//!      evaluator says "no side effects" the trace must be empty (also on error runs), when it
+//!      says "single value" exactly one value must come back.
+//! A failing oracle outside the proved region `H8` (op `c08.h`) is attributed to the listed
+//! finding; inside `H8` it is a VIOLATION.
+use crate::astsexp::{self, Sexp};
+use crate::exec;
+use crate::model::Model;
+use crate::report::{self, Report, Violation};
+use crate::rng::Rng;
+use darklua_core::nodes::{Expression, LastStatement};
+use darklua_core::process::{Evaluator, LuaValue};
+use serde_json::json;
 
-pub fn run(report: &mut Report, _replay: Option<&str>) {
-    report.notes.push("C08: no harness yet".to_owned());
+const NAN_WIRE: &str = "f7ff8000000000000";
+
+fn num_wire(v: f64) -> String {
+    if v.is_nan() {
+        NAN_WIRE.to_owned()
+    } else {
+        format!("f{:016x}", v.to_bits())
+    }
+}
+
+fn canon_num_atom(atom: &str) -> String {
+    match crate::model::wire_f64(atom) {
+        Some(v) => num_wire(v),
+        None => atom.to_owned(),
+    }
+}
+
+/// the evaluator's answers in the driver's format `(<value> <se> <se-pure> <multi>)`
+#[derive(Clone, Debug, PartialEq)]
+struct Answers {
+    value: String,
+    se: bool,
+    se_pure: bool,
+    multi: bool,
+}
+
+impl Answers {
+    fn text(&self) -> String {
+        format!("({} {} {} {})", self.value, self.se, self.se_pure, self.multi)
+    }
+    fn definite(&self) -> bool {
+        self.value != "unknown"
+    }
+}
+
+fn value_text(v: &LuaValue) -> String {
+    match v {
+        LuaValue::Nil => "nil".into(),
+        LuaValue::True => "true".into(),
+        LuaValue::False => "false".into(),
+        LuaValue::Number(n) => format!("(num {})", num_wire(*n)),
+        LuaValue::String(s) => format!("(str {})", crate::model::hex(s)),
+        LuaValue::Table => "table".into(),
+        LuaValue::Function => "function".into(),
+        LuaValue::Unknown => "unknown".into(),
+    }
+}
+
+fn real_answers(expr: &Expression) -> Option<Answers> {
+    std::panic::catch_unwind(std::panic::AssertUnwindSafe(|| {
+        let ev = Evaluator::default();
+        let pure = Evaluator::default().assume_pure_metamethods();
+        Answers {
+            value: value_text(&ev.evaluate(expr)),
+            se: ev.has_side_effects(expr),
+            se_pure: pure.has_side_effects(expr),
+            multi: ev.can_return_multiple_values(expr),
+        }
+    }))
+    .ok()
+}
+
+fn parse_model_answers(text: &str) -> Option<Answers> {
+    let s = Sexp::parse(text).ok()?;
+    let items = s.list()?;
+    if items.len() != 4 {
+        return None;
+    }
+    let value = match &items[0] {
+        Sexp::Atom(a) => a.clone(),
+        Sexp::List(l) if l.len() == 2 => {
+            let head = l[0].atom()?;
+            let arg = l[1].atom()?;
+            if head == "num" {
+                format!("(num {})", canon_num_atom(arg))
+            } else {
+                format!("({} {})", head, arg)
+            }
+        }
+        _ => return None,
+    };
+    let b = |s: &Sexp| s.atom().map(|a| a == "true");
+    Some(Answers { value, se: b(&items[1])?, se_pure: b(&items[2])?, multi: b(&items[3])? })
+}
+
+// ---------------------------------------------------------------------------------------------
+// alphabets
+// ---------------------------------------------------------------------------------------------
+
+fn lua_expr_wire(code: &str) -> String {
+    let block = exec::parse(&format!("return {}", code)).unwrap_or_else(|e| panic!("prelude expr {}: {}", code, e));
+    match block.get_last_statement() {
+        Some(LastStatement::Return(r)) => astsexp::expr_to_sexp(r.iter_expressions().next().unwrap()),
+        _ => panic!("no return"),
+    }
+}
+
+fn num(v: f64) -> String {
+    format!("(num f{:016x})", v.to_bits())
+}
+fn string(bytes: &[u8]) -> String {
+    format!("(str {})", crate::model::hex(bytes))
+}
+fn var(name: &str) -> String {
+    format!("(var {})", crate::model::hex(name.as_bytes()))
+}
+
+struct Alphabet {
+    literals: Vec<String>,
+    opaque: Vec<String>,
+    reduced: Vec<String>,
+    ty: String,
+    empty_fn: String,
+}
+
+const BINOPS: [&str; 16] =
+    ["and", "or", "eq", "ne", "lt", "le", "gt", "ge", "add", "sub", "mul", "div", "idiv", "mod", "pow", "concat"];
+const UNOPS: [&str; 3] = ["neg", "not", "len"];
+const BINOPS_REDUCED: [&str; 6] = ["and", "or", "eq", "lt", "add", "concat"];
+
+fn alphabet() -> Alphabet {
+    let empty_fn = lua_expr_wire("function() end");
+    let mut literals: Vec<String> = vec!["nil".into(), "true".into(), "false".into()];
+    for v in [
+        0.0,
+        -0.0,
+        1.0,
+        -1.0,
+        0.1,
+        0.1 + 0.2,
+        1e308,
+        5e-324,
+        9007199254740993.0,
+        123456789012345.0,
+        1e15,
+        1e100,
+        1e-7,
+        1e-20,
+        2e-20,
+        255.0,
+        16.0,
+        2.5,
+    ] {
+        literals.push(num(v));
+    }
+    // infinities and NaN as the division trees darklua builds
+    literals.push(lua_expr_wire("1/0"));
+    literals.push(lua_expr_wire("-1/0"));
+    literals.push(lua_expr_wire("0/0"));
+    for s in [
+        &b""[..],
+        b"1",
+        b" 0x10 ",
+        b"1e2",
+        b"-5",
+        b"abc",
+        b"\xff\xfe",
+        b" 1 ",
+        b"+1",
+        b"0x",
+        b"1_0",
+        b"inf",
+        b"nan",
+        b"0b11",
+        b"\xc2\xa01",
+        b"- 1",
+        b"--5",
+        b"0x1p4",
+        b"10",
+        b"1.5",
+        b"0",
+        b"-0",
+        b"\xe2\x82\xac",
+        b"1e",
+        b".5",
+        b"5.",
+        b"0x_1",
+        b"1\x0b",
+        b"1e400",
+        b"-0x10",
+        b"ABC",
+        b"ab",
+    ] {
+        literals.push(string(s));
+    }
+    literals.push("(table)".into());
+    literals.push(lua_expr_wire("{ f() }"));
+    literals.push(lua_expr_wire("{ 1, a = true }"));
+    literals.push(empty_fn.clone());
+    let opaque = vec![
+        var("x"),
+        lua_expr_wire("t.a"),
+        lua_expr_wire("t[1]"),
+        lua_expr_wire("f()"),
+        "vararg".to_owned(),
+    ];
+    let reduced = vec!["nil".into(), "true".into(), num(0.0), num(1.0), string(b"1"), var("x")];
+    let ty = {
+        let w = lua_expr_wire("x :: number");
+        // (cast (var x78) <ty>)
+        let s = Sexp::parse(&w).unwrap();
+        s.list().unwrap()[2].to_string()
+    };
+    Alphabet { literals, opaque, reduced, ty, empty_fn }
+}
+
+fn un(op: &str, e: &str) -> String {
+    format!("(un {} {})", op, e)
+}
+fn bin(op: &str, l: &str, r: &str) -> String {
+    format!("(bin {} {} {})", op, l, r)
+}
+
+/// every node kind at depth ≤ 1 over the full alphabets
+fn depth1(a: &Alphabet) -> Vec<String> {
+    let mut leaves: Vec<String> = a.literals.clone();
+    leaves.extend(a.opaque.iter().cloned());
+    let small: Vec<String> = {
+        let mut s = a.reduced.clone();
+        s.push("false".into());
+        s.push(string(b"abc"));
+        s.push("(table)".into());
+        s.push(lua_expr_wire("f()"));
+        s
+    };
+    let mut out = leaves.clone();
+    for op in UNOPS {
+        for e in &leaves {
+            out.push(un(op, e));
+        }
+    }
+    for op in BINOPS {
+        for l in &leaves {
+            for r in &leaves {
+                out.push(bin(op, l, r));
+            }
+        }
+    }
+    for e in &leaves {
+        out.push(format!("(paren {})", e));
+        out.push(format!("(cast {} {})", e, a.ty));
+        out.push(format!("(interp (v {}))", e));
+        out.push(format!("(interp (s x61) (v {}) (s x62))", e));
+        out.push(format!("(table (pos {}))", e));
+        out.push(format!("(table (keyed {} true))", e));
+        out.push(format!("(table (named x6b {}) (pos (num f3ff0000000000000)))", e));
+        // instantiation: the target must be a prefix
+        out.push(format!("(inst (paren {}) {})", e, a.ty));
+        out.push(format!("(inst (inst (paren {}) {}) {})", e, a.ty, a.ty));
+    }
+    for e in &a.opaque {
+        if e != "vararg" {
+            out.push(format!("(inst {} {})", e, a.ty));
+            out.push(format!("(field {} x6b)", e));
+            out.push(format!("(index {} (num f3ff0000000000000))", e));
+            out.push(format!("(call {} - t)", e));
+        }
+    }
+    for l in &leaves {
+        for r in &small {
+            out.push(format!("(interp (v {}) (v {}))", l, r));
+            out.push(format!("(index (paren {}) {})", r, l));
+        }
+    }
+    // if-expressions: condition over everything, results over the small alphabet; one elseif
+    for c in &leaves {
+        for t in &small {
+            for e in &small {
+                out.push(format!("(ifx {} {} () {})", c, t, e));
+            }
+        }
+        for c2 in &small {
+            for t2 in &small {
+                out.push(format!("(ifx {} (num f4000000000000000) (({} {})) (num f4008000000000000))", c, c2, t2));
+                out.push(format!("(ifx {} (num f4000000000000000) (({} {})) (num f4008000000000000))", c2, c, t2));
+            }
+        }
+    }
+    out
+}
+
+/// depth ≤ 1 over the reduced alphabet and operator-class representatives
+fn reduced_depth1(a: &Alphabet) -> Vec<String> {
+    let mut out = a.reduced.clone();
+    for op in UNOPS {
+        for e in &a.reduced {
+            out.push(un(op, e));
+        }
+    }
+    for op in BINOPS_REDUCED {
+        for l in &a.reduced {
+            for r in &a.reduced {
+                out.push(bin(op, l, r));
+            }
+        }
+    }
+    out
+}
+
+/// the `index`-th depth-2 expression over the reduced alphabet
+fn depth2_at(d1: &[String], index: usize) -> String {
+    let n = d1.len();
+    let binaries = BINOPS_REDUCED.len() * n * n;
+    if index < binaries {
+        let op = BINOPS_REDUCED[index / (n * n)];
+        let rest = index % (n * n);
+        bin(op, &d1[rest / n], &d1[rest % n])
+    } else {
+        let i = index - binaries;
+        un(UNOPS[i / n], &d1[i % n])
+    }
+}
+
+fn depth2_count(d1: &[String]) -> usize {
+    BINOPS_REDUCED.len() * d1.len() * d1.len() + UNOPS.len() * d1.len()
+}
+
+fn random_string(rng: &mut Rng) -> Vec<u8> {
+    const PIECES: [&[u8]; 24] = [
+        b"0", b"1", b"9", b"x", b"X", b"e", b"E", b"p", b".", b"-", b"+", b" ", b"_", b"b", b"a", b"f", b"\t", b"inf", b"nan",
+        b"\xc2\xa0", b"\xff", b"0x", b"10", b"\n",
+    ];
+    let n = rng.below(6);
+    let mut out = Vec::new();
+    for _ in 0..n {
+        out.extend_from_slice(PIECES[rng.below(PIECES.len())]);
+    }
+    // keep clear of `0x…p<k>` literals whose value overflows u64 (compute_value panics in debug builds)
+    out
+}
+
+fn random_number(rng: &mut Rng) -> f64 {
+    match rng.below(6) {
+        0 => rng.range(-3, 20) as f64,
+        1 => (rng.range(-30, 30) as f64) / 8.0,
+        2 => f64::from_bits(rng.next_u64()),
+        3 => *rng.pick(&[1e15, 1e16, 1e21, 1e-5, 1e-4, 0.1, 0.2, 0.3, 1e-20, 2e-20, 1e300, 4.5e15, 2.220446049250313e-16]),
+        4 => (rng.range(0, 1 << 20) as f64) * 1e-3,
+        _ => (rng.next_u64() >> 11) as f64,
+    }
+}
+
+fn random_expr(rng: &mut Rng, a: &Alphabet, depth: u32) -> String {
+    if depth == 0 || rng.chance(1, 6) {
+        return match rng.below(10) {
+            0..=2 => rng.pick(&a.literals).clone(),
+            3..=4 => rng.pick(&a.opaque).clone(),
+            5 => num(random_number(rng)),
+            6 => string(&random_string(rng)),
+            7 => rng.pick(&a.reduced).clone(),
+            8 => num(rng.range(0, 3) as f64),
+            _ => { let c: [&[u8]; 5] = [b"a", b"b", b"", b"1", b"2"]; string(c[rng.below(5)]) }
+        };
+    }
+    let d = depth - 1;
+    match rng.below(20) {
+        0..=7 => {
+            let op = BINOPS[rng.below(16)];
+            bin(op, &random_expr(rng, a, d), &random_expr(rng, a, d))
+        }
+        8..=10 => un(UNOPS[rng.below(3)], &random_expr(rng, a, d)),
+        11 => format!("(paren {})", random_expr(rng, a, d)),
+        12 => format!("(cast {} {})", random_expr(rng, a, d), a.ty),
+        13..=14 => {
+            let n = rng.below(3);
+            let mut elifs = String::new();
+            for i in 0..n {
+                if i > 0 {
+                    elifs.push(' ');
+                }
+                elifs.push_str(&format!("({} {})", random_expr(rng, a, d), random_expr(rng, a, d)));
+            }
+            format!("(ifx {} {} ({}) {})", random_expr(rng, a, d), random_expr(rng, a, d), elifs, random_expr(rng, a, d))
+        }
+        15..=16 => {
+            let n = rng.below(4);
+            let mut segs = Vec::new();
+            for _ in 0..n {
+                if rng.chance(1, 2) {
+                    { let c: [&[u8]; 4] = [b"a", b"", b" ", b"1"]; segs.push(format!("(s {})", crate::model::hex(c[rng.below(4)]))); }
+                } else {
+                    segs.push(format!("(v {})", random_expr(rng, a, d)));
+                }
+            }
+            format!("(interp{}{})", if segs.is_empty() { "" } else { " " }, segs.join(" "))
+        }
+        17 => {
+            let n = rng.below(3);
+            let mut entries = Vec::new();
+            for _ in 0..n {
+                entries.push(match rng.below(3) {
+                    0 => format!("(pos {})", random_expr(rng, a, d)),
+                    1 => format!("(named x6b {})", random_expr(rng, a, d)),
+                    _ => format!("(keyed {} {})", random_expr(rng, a, d), random_expr(rng, a, d)),
+                });
+            }
+            format!("(table{}{})", if entries.is_empty() { "" } else { " " }, entries.join(" "))
+        }
+        18 => format!("(inst (paren {}) {})", random_expr(rng, a, d), a.ty),
+        _ => match rng.below(4) {
+            0 => format!("(field (paren {}) x6b)", random_expr(rng, a, d)),
+            1 => format!("(index (paren {}) {})", random_expr(rng, a, d), random_expr(rng, a, d)),
+            2 => format!("(call (var x66) - t {})", random_expr(rng, a, d)),
+            _ => a.empty_fn.clone(),
+        },
+    }
+}
+
+// ---------------------------------------------------------------------------------------------
+// oracle: execution on the reference semantics
+// ---------------------------------------------------------------------------------------------
+
+const HOLE: &str = "(var x5f5f484f4c45)"; // __HOLE
+
+/// Lua preludes binding the opaque leaves; `__HOLE` is replaced by the expression
+fn environments() -> Vec<(&'static str, String)> {
+    let meta = r#"
+local function mk(tag)
+  local m = {}
+  m.__index = function(t, k) emit(tag, "index") return 7 end
+  m.__add = function(a, b) emit(tag, "add") return 1 end
+  m.__sub = function(a, b) emit(tag, "sub") return 1 end
+  m.__mul = function(a, b) emit(tag, "mul") return 1 end
+  m.__div = function(a, b) emit(tag, "div") return 1 end
+  m.__mod = function(a, b) emit(tag, "mod") return 1 end
+  m.__pow = function(a, b) emit(tag, "pow") return 1 end
+  m.__idiv = function(a, b) emit(tag, "idiv") return 1 end
+  m.__unm = function(a) emit(tag, "unm") return 1 end
+  m.__concat = function(a, b) emit(tag, "concat") return "c" end
+  m.__len = function(a) emit(tag, "len") return 3 end
+  m.__eq = function(a, b) emit(tag, "eq") return true end
+  m.__lt = function(a, b) emit(tag, "lt") return true end
+  m.__le = function(a, b) emit(tag, "le") return false end
+  m.__call = function(self, ...) emit(tag, "call") return 1, 2 end
+  m.__tostring = function(a) emit(tag, "tostring") return "obj" end
+  return setmetatable({}, m)
+end
+"#;
+    let body = "return (function(...) return __HOLE end)";
+    let mut envs = Vec::new();
+    envs.push((
+        "meta",
+        format!("{}local x = mk('x') local t = mk('t') local f = mk('f')\n{}(x, 2)", meta, body),
+    ));
+    envs.push((
+        "number",
+        format!("local x = 5 local t = {{ a = 1, 2, k = 'v' }} local function f(...) emit('f') return 1, 2 end\n{}()", body),
+    ));
+    envs.push((
+        "nil",
+        format!("local x = nil local t = {{}} local function f(...) emit('f') end\n{}(nil, false, 3)", body),
+    ));
+    envs.push((
+        "string",
+        format!("local x = '10' local t = {{ a = false }} local function f(...) emit('f') return f end\n{}('7')", body),
+    ));
+    envs.into_iter()
+        .map(|(name, code)| {
+            let block = exec::parse(&code).unwrap_or_else(|e| panic!("prelude {}: {}", name, e));
+            let text = astsexp::block_to_sexp(&block);
+            assert!(text.matches(HOLE).count() == 1, "prelude {} has no unique hole", name);
+            (name, text)
+        })
+        .collect()
+}
+
+fn extern_list() -> String {
+    let names: Vec<String> = crate::progen::EXTERNS.iter().map(|n| crate::model::hex(n.as_bytes())).collect();
+    format!("({})", names.join(" "))
+}
+
+fn run_request(env_block: &str, expr: &str) -> String {
+    format!("sem.run 12 {} {}", extern_list(), env_block.replace(HOLE, expr))
+}
+
+enum Outcome {
+    Ok { values: Vec<Sexp>, events: usize },
+    Err { events: usize },
+    Other,
+}
+
+fn parse_outcome(text: &str) -> Outcome {
+    let s = match Sexp::parse(text) {
+        Ok(s) => s,
+        Err(_) => return Outcome::Other,
+    };
+    let items = match s.list() {
+        Some(l) => l,
+        None => return Outcome::Other,
+    };
+    match (items.first().and_then(|h| h.atom()), items.len()) {
+        (Some("ok"), 3) => match (items[1].list(), items[2].list()) {
+            (Some(v), Some(e)) => Outcome::Ok { values: v.to_vec(), events: e.len() },
+            _ => Outcome::Other,
+        },
+        (Some("err"), 3) => match items[2].list() {
+            Some(e) => Outcome::Err { events: e.len() },
+            None => Outcome::Other,
+        },
+        _ => Outcome::Other,
+    }
+}
+
+/// does the executed value equal the evaluator's definite answer?
+fn value_matches(expected: &str, got: &Sexp) -> bool {
+    match expected {
+        "nil" | "true" | "false" => got.atom() == Some(expected),
+        "table" => got.head() == Some("tbl"),
+        "function" => got.atom() == Some("fn"),
+        _ => {
+            let e = match Sexp::parse(expected) {
+                Ok(e) => e,
+                Err(_) => return false,
+            };
+            let l = e.list().unwrap();
+            let arg = l[1].atom().unwrap();
+            match l[0].atom() {
+                // numbers: same double (all NaNs are one value; -0 and +0 are told apart)
+                Some("num") => got.atom().map(canon_num_atom).as_deref() == Some(arg),
+                Some("str") => got.atom() == Some(arg),
+                _ => false,
+            }
+        }
+    }
+}
+
+/// what the property demands of one run; `None` = satisfied
+fn judge(real: &Answers, outcome: &Outcome) -> Option<String> {
+    match outcome {
+        Outcome::Other => None,
+        Outcome::Err { events } => {
+            if !real.se && *events > 0 {
+                Some(format!("declared side-effect free but the (failing) run performed {} external call(s)", events))
+            } else {
+                None
+            }
+        }
+        Outcome::Ok { values, events } => {
+            if !real.se && *events > 0 {
+                return Some(format!("declared side-effect free but the run performed {} external call(s)", events));
+            }
+            if !real.multi && values.len() != 1 {
+                return Some(format!("declared single-valued but the run returned {} values", values.len()));
+            }
+            if real.definite() {
+                if values.len() != 1 {
+                    return Some(format!("evaluates to {} but the run returned {} values", real.value, values.len()));
+                }
+                if !value_matches(&real.value, &values[0]) {
+                    return Some(format!("evaluates to {} but the run returned {}", real.value, values[0]));
+                }
+            }
+            None
+        }
+    }
+}
+
+struct Ctx {
+    envs: Vec<(&'static str, String)>,
+}
+
+fn has_opaque(expr: &str) -> bool {
+    expr.contains("(var ") || expr.contains("vararg") || expr.contains("(call ") || expr.contains("(field ") || expr.contains("(index ")
+}
+
+/// run the oracle on the real answers; returns the first failure (environment, reason, outcome text)
+fn oracle(model: &mut Model, ctx: &Ctx, real: &Answers, expr: &str, all_envs: bool, salt: usize, r: &mut Report) -> Option<(String, String, String)> {
+    let picks: Vec<usize> = if !has_opaque(expr) {
+        vec![1]
+    } else if all_envs {
+        (0..ctx.envs.len()).collect()
+    } else {
+        vec![0, 1 + salt % (ctx.envs.len() - 1)]
+    };
+    for i in picks {
+        let (name, block) = &ctx.envs[i];
+        let answer = model.ask(&run_request(block, expr));
+        let outcome = parse_outcome(&answer);
+        match &outcome {
+            Outcome::Ok { .. } => r.hist("oracle_run", "ok"),
+            Outcome::Err { .. } => r.hist("oracle_run", "error"),
+            Outcome::Other => r.hist("oracle_run", if answer == "timeout" { "timeout" } else { "protocol" }),
+        }
+        if let Some(why) = judge(real, &outcome) {
+            return Some(((*name).to_owned(), why, answer));
+        }
+    }
+    None
+}
+
+fn finding_for_tags(tags: &[String], why: &str) -> Option<&'static str> {
+    let has = |t: &str| tags.iter().any(|x| x == t);
+    if why.contains("side-effect free") {
+        if has("interp") {
+            return Some("F4");
+        }
+        if has("numeq") {
+            return Some("F1");
+        }
+        // a wrongly folded `..` decides a comparison, hence a branch, hence what is declared pure
+        if has("numfmt") {
+            return Some("F3");
+        }
+        return None;
+    }
+    if has("numeq") {
+        return Some("F1");
+    }
+    if has("numfmt") {
+        return Some("F3");
+    }
+    None
+}
+
+fn subexpressions(expr: &str) -> Vec<String> {
+    fn walk(s: &Sexp, out: &mut Vec<String>) {
+        if let Some(items) = s.list() {
+            let head = items.first().and_then(|h| h.atom()).unwrap_or("");
+            if matches!(head, "bin" | "un" | "paren" | "ifx" | "interp" | "cast" | "inst" | "table" | "num" | "str" | "var" | "call" | "field" | "index") {
+                out.push(s.to_string());
+            }
+            if !matches!(head, "fn" | "ty" | "num" | "str" | "var") {
+                for i in items.iter().skip(1) {
+                    walk(i, out);
+                }
+            }
+        } else if matches!(s.atom(), Some("nil" | "true" | "false" | "vararg")) {
+            out.push(s.to_string());
+        }
+    }
+    let mut out = Vec::new();
+    if let Ok(s) = Sexp::parse(expr) {
+        walk(&s, &mut out);
+    }
+    out.sort_by_key(|s| s.len());
+    out.dedup();
+    out
+}
+
+/// one case: correspondence + oracle. Returns true when the case was evaluated.
+fn check_case(model: &mut Model, ctx: &Ctx, r: &mut Report, wire: &str, source: &str, all_envs: bool, salt: usize) {
+    let expr = match astsexp::sexp_to_expr(wire) {
+        Ok(e) => e,
+        Err(_) => {
+            r.hist("skipped", "not-buildable");
+            return;
+        }
+    };
+    // the tree the real evaluator sees, re-encoded: model and semantics get exactly this text
+    let wire = astsexp::expr_to_sexp(&expr);
+    let real = match real_answers(&expr) {
+        Some(a) => a,
+        None => {
+            r.hist("skipped", "evaluator-panic");
+            r.count("evaluator_panics", 1);
+            if r.counters.get("evaluator_panics") == Some(&1) {
+                r.notes.push(format!("the real evaluator panicked on {} (crash freedom is property C12)", wire));
+            }
+            return;
+        }
+    };
+    let model_text = model.ask(&format!("c08.eval {}", wire));
+    let modelled = parse_model_answers(&model_text);
+    let agrees = modelled.as_ref() == Some(&real);
+    let bucket = if real.definite() { "definite" } else { "unknown" };
+    r.hist("real_value", bucket);
+    r.hist("real_flags", &format!("se={} multi={}", real.se, real.multi));
+    r.hist("source", source);
+    let nontrivial = real.definite() || !real.se || !real.multi;
+    r.case(if nontrivial && wire.starts_with('(') { Some(&wire) } else { None });
+    if r.samples.len() < 2 && real.definite() && wire.len() > 60 {
+        r.sample(json!({"expr": wire, "real": real.text(), "model": model_text}));
+    }
+
+    let failure = oracle(model, ctx, &real, &wire, all_envs || !agrees, salt, r);
+
+    if !agrees {
+        // search: this input, then its sub-expressions, for an input on which the REAL evaluator breaks the property
+        let mut found = failure.clone().map(|f| (wire.clone(), real.clone(), f));
+        if found.is_none() {
+            for sub in subexpressions(&wire) {
+                if let Ok(e) = astsexp::sexp_to_expr(&sub) {
+                    if let Some(a) = real_answers(&e) {
+                        if let Some(f) = oracle(model, ctx, &a, &sub, true, 0, r) {
+                            found = Some((sub, a, f));
+                            break;
+                        }
+                    }
+                }
+            }
+        }
+        // smallest disagreeing sub-expression, for the report
+        let mut smallest = wire.clone();
+        let mut smallest_answers = (real.text(), model_text.clone());
+        for sub in subexpressions(&wire) {
+            if let Ok(e) = astsexp::sexp_to_expr(&sub) {
+                if let Some(a) = real_answers(&e) {
+                    let m = model.ask(&format!("c08.eval {}", astsexp::expr_to_sexp(&e)));
+                    if parse_model_answers(&m).as_ref() != Some(&a) {
+                        smallest = sub;
+                        smallest_answers = (a.text(), m);
+                        break;
+                    }
+                }
+            }
+        }
+        match found {
+            Some((input, answers, (env, why, outcome))) => {
+                // is it one of the listed defects? then the disagreement is elsewhere; still a violation of the tie
+                r.violation(Violation {
+                    kind: "oracle".into(),
+                    check: "evaluator-vs-execution".into(),
+                    what: format!("the real evaluator disagrees with execution ({}; environment {}) — found while chasing a model/code disagreement", why, env),
+                    input: json!({"expr": input, "real": answers.text(), "environment": env, "outcome": outcome, "disagreeing_expr": smallest}),
+                    failing_input_found: true,
+                });
+            }
+            None => {
+                r.violation(Violation {
+                    kind: "correspondence".into(),
+                    check: "model-vs-evaluator".into(),
+                    what: "the Lean evaluator model and the real Evaluator give different answers; the theorems about the model no longer speak about this code".into(),
+                    input: json!({"expr": smallest, "within": wire, "real": smallest_answers.0, "model": smallest_answers.1}),
+                    failing_input_found: false,
+                });
+            }
+        }
+        return;
+    }
+
+    if let Some((env, why, outcome)) = failure {
+        // inside the proved region?
+        let h = model.ask(&format!("c08.h {}", wire));
+        let tags: Vec<String> = Sexp::parse(&h)
+            .ok()
+            .and_then(|s| s.list().map(|l| l.iter().filter_map(|x| x.atom().map(|a| a.to_owned())).collect()))
+            .unwrap_or_default();
+        let inside = tags.first().map(|t| t == "true").unwrap_or(false);
+        let finding = if inside { None } else { finding_for_tags(&tags[1..], &why) };
+        match finding {
+            Some(id) => {
+                r.hist("outside_H8_failures", id);
+            }
+            None => {
+                r.violation(Violation {
+                    kind: "oracle".into(),
+                    check: "evaluator-vs-execution".into(),
+                    what: format!("the real evaluator disagrees with execution on the reference semantics: {} (environment {}; H8 = {})", why, env, h),
+                    input: json!({"expr": wire, "real": real.text(), "environment": env, "outcome": outcome}),
+                    failing_input_found: true,
+                });
+            }
+        }
+    }
+}
+
+/// End to end through the real `compute_expression` rule: the program `<prelude> return <e>` before and
+/// after the rule must behave the same on the reference semantics when the original run is error-free.
+/// Differences outside H8 are the listed findings; a different NUMBER of returned values is finding F5
+/// (C01: `true and ...` folded to `...`), attributed, not raised here.
+fn end_to_end(model: &mut Model, ctx: &Ctx, r: &mut Report, wire: &str, rule: &dyn darklua_core::rules::Rule) {
+    let (env_name, env_block) = &ctx.envs[1];
+    let program = env_block.replace(HOLE, wire);
+    let block0 = match astsexp::sexp_to_block(&program) {
+        Ok(b) => b,
+        Err(_) => return,
+    };
+    let mut block1 = block0.clone();
+    let resources = darklua_core::Resources::from_memory();
+    let applied = std::panic::catch_unwind(std::panic::AssertUnwindSafe(|| {
+        let context = darklua_core::rules::ContextBuilder::new("src/test.lua", &resources, "").build();
+        rule.process(&mut block1, &context)
+    }));
+    match applied {
+        Ok(Ok(())) => {}
+        Ok(Err(_)) => return,
+        Err(_) => {
+            r.count("e2e_rule_panics", 1);
+            return;
+        }
+    }
+    let text1 = astsexp::block_to_sexp(&block1);
+    if text1 == astsexp::block_to_sexp(&block0) {
+        r.hist("e2e", "unchanged");
+        return;
+    }
+    let o0 = model.ask(&format!("sem.run 12 {} {}", extern_list(), astsexp::block_to_sexp(&block0)));
+    if !o0.starts_with("(ok ") {
+        r.hist("e2e", "original-not-error-free");
+        return;
+    }
+    let o1 = model.ask(&format!("sem.run 12 {} {}", extern_list(), text1));
+    let canon = |o: &str| -> String {
+        // all NaNs are one value
+        let mut out = String::new();
+        for tok in o.split_inclusive(|c: char| c == ' ' || c == '(' || c == ')') {
+            let (body, sep) = tok.split_at(tok.len() - tok.chars().last().map(|c| if c == ' ' || c == '(' || c == ')' { c.len_utf8() } else { 0 }).unwrap_or(0));
+            if body.len() == 17 && body.starts_with('f') {
+                out.push_str(&canon_num_atom(body));
+            } else {
+                out.push_str(body);
+            }
+            out.push_str(sep);
+        }
+        out
+    };
+    if canon(&o0) == canon(&o1) {
+        r.hist("e2e", "folded-same-behaviour");
+        return;
+    }
+    let count = |o: &str| parse_outcome_values(o);
+    if count(&o0) != count(&o1) {
+        r.hist("e2e", "value-count-differs(F5,C01)");
+        if r.counters.get("e2e_f5_samples").copied().unwrap_or(0) < 2 {
+            r.count("e2e_f5_samples", 1);
+            r.notes.push(format!("F5 (C01) seen end-to-end: return {} -> {} / {}", wire, o0, o1));
+        }
+        return;
+    }
+    let h = model.ask(&format!("c08.h {}", wire));
+    if !h.starts_with("(true") {
+        r.hist("e2e", "differs-outside-H8(F1-F4)");
+        return;
+    }
+    if has_f5_shape(wire) {
+        // `a and f()` / `a or ...` folded to the multi-valued right operand in a multi-value position
+        // (last table entry, last argument): C01's finding F5 again
+        r.hist("e2e", "differs-with-F5-shape(C01)");
+        return;
+    }
+    r.violation(Violation {
+        kind: "oracle".into(),
+        check: "e2e:compute_expression".into(),
+        what: format!("`return <e>` behaves differently after the real compute_expression rule (environment {})", env_name),
+        input: json!({"expr": wire, "original_outcome": o0, "transformed_outcome": o1, "transformed": text1}),
+        failing_input_found: true,
+    });
+}
+
+/// an `and`/`or` whose right operand can yield several values (finding F5 of C01 may apply)
+fn has_f5_shape(wire: &str) -> bool {
+    fn walk(s: &Sexp) -> bool {
+        if let Some(items) = s.list() {
+            if items.len() == 4 && items[0].atom() == Some("bin") && matches!(items[1].atom(), Some("and" | "or")) {
+                let right = &items[3];
+                if right.atom() == Some("vararg") || right.head() == Some("call") {
+                    return true;
+                }
+            }
+            items.iter().any(walk)
+        } else {
+            false
+        }
+    }
+    Sexp::parse(wire).map(|s| walk(&s)).unwrap_or(false)
+}
+
+fn parse_outcome_values(o: &str) -> Option<usize> {
+    match parse_outcome(o) {
+        Outcome::Ok { values, .. } => Some(values.len()),
+        _ => None,
+    }
+}
+
+fn replay_known_findings(model: &mut Model, ctx: &Ctx, r: &mut Report) {
+    for entry in report::known_findings("C08") {
+        let id = entry["id"].as_str().unwrap_or("?").to_owned();
+        let wire = match entry["witness"]["expr"].as_str() {
+            Some(w) => w.to_owned(),
+            None => continue,
+        };
+        let expr = match astsexp::sexp_to_expr(&wire) {
+            Ok(e) => e,
+            Err(_) => continue,
+        };
+        let real = match real_answers(&expr) {
+            Some(a) => a,
+            None => continue,
+        };
+        let wire = astsexp::expr_to_sexp(&expr);
+        if let Some((env, why, _)) = oracle(model, ctx, &real, &wire, true, 0, r) {
+            let h = model.ask(&format!("c08.h {}", wire));
+            if h.starts_with("(true") {
+                r.violation(Violation {
+                    kind: "finding-changed".into(),
+                    check: format!("known-finding:{}", id),
+                    what: format!("witness of {} fails but lies inside H8 ({})", id, h),
+                    input: json!({"expr": wire}),
+                    failing_input_found: true,
+                });
+            } else {
+                r.known_finding(&id, &format!("{} — {} (environment {}); {}", entry["source"].as_str().unwrap_or(""), why, env, real.text()));
+            }
+        }
+    }
+}
+
+pub fn run(report: &mut Report, replay: Option<&str>) {
+    let alpha = alphabet();
+    let ctx = Ctx { envs: environments() };
+    report.rule = "expressions as wire trees: EXHAUSTIVE depth ≤ 1 (3 unary, 16 binary, parenthesis, cast, instantiation, interpolation, \
+        table constructor, if-expression with and without elseif) over 57 literals (nil, booleans, ±0, tiny/huge/non-terminating numbers, \
+        ±inf/NaN as division trees, 32 strings incl. numeric-looking, spaced, signed, hex, underscore, non-UTF-8, Unicode space; table \
+        constructors, a function) and 5 opaque leaves (identifier, field, index, call, ...); EXHAUSTIVE depth 2 over a reduced alphabet \
+        (6 leaves × and or == < + .. / not - #; quick tier: a seeded slice); random trees to depth 6 over everything incl. random doubles \
+        and numeric-looking strings. Each case: the real Evaluator's three answers vs the Lean model (bit-exact), and vs execution of \
+        `return <e>` on the reference semantics in environments with effectful metamethods / number / nil / string bindings. \
+        Non-trivial = a compound expression for which the evaluator claims something (a definite value, no side effects, or single-valued); distinct by tree."
+        .to_owned();
+
+    if let Some(path) = replay {
+        let text = std::fs::read_to_string(path).expect("replay file");
+        let v: serde_json::Value = serde_json::from_str(&text).expect("replay json");
+        let mut model = Model::spawn();
+        for key in ["expr", "within", "disagreeing_expr"] {
+            if let Some(w) = v["input"][key].as_str().or_else(|| v[key].as_str()) {
+                check_case(&mut model, &ctx, report, w, "replay", true, 0);
+            }
+        }
+        return;
+    }
+
+    {
+        let mut model = Model::spawn();
+        replay_known_findings(&mut model, &ctx, report);
+        // corpus: minimised past disagreements and finding witnesses
+        let dir = concat!(env!("CARGO_MANIFEST_DIR"), "/../corpus/C08");
+        if let Ok(entries) = std::fs::read_dir(dir) {
+            let mut paths: Vec<_> = entries.filter_map(|e| e.ok()).map(|e| e.path()).collect();
+            paths.sort();
+            for p in paths {
+                if let Ok(text) = std::fs::read_to_string(&p) {
+                    for line in text.lines() {
+                        let line = line.trim();
+                        if line.is_empty() || line.starts_with('#') {
+                            continue;
+                        }
+                        // known findings listed in the corpus are attributed, not raised
+                        check_case(&mut model, &ctx, report, line, "corpus", true, 0);
+                    }
+                }
+            }
+        }
+    }
+
+    let d1 = depth1(&alpha);
+    let rd1 = reduced_depth1(&alpha);
+    let d2_total = depth2_count(&rd1);
+    let thorough = report.is_thorough();
+    let d2_take = if thorough { d2_total } else { 120_000 };
+    let random_total: usize = if thorough { 2_000_000 } else { 100_000 };
+    let threads = 14;
+    let seed = report.seed;
+    report.exhaustive.insert("depth<=1 over the full alphabets".into(), true);
+    report.exhaustive.insert("depth 2 over the reduced alphabet".into(), thorough);
+    report.count("depth1_cases", d1.len() as u64);
+    report.count("depth2_cases", d2_take as u64);
+    report.count("depth2_total", d2_total as u64);
+    report.count("random_cases", random_total as u64);
+
+    let d1 = &d1;
+    let rd1 = &rd1;
+    let alpha = &alpha;
+    let ctx = &ctx;
+    report.parallel(threads, |tid, r| {
+        let mut model = Model::spawn();
+        let rule = exec::rule_from_json("'compute_expression'").expect("compute_expression rule");
+        for (i, w) in d1.iter().enumerate() {
+            if i % threads == tid {
+                check_case(&mut model, ctx, r, w, "depth1", true, i);
+                if let Ok(e) = astsexp::sexp_to_expr(w) {
+                    end_to_end(&mut model, ctx, r, &astsexp::expr_to_sexp(&e), rule.as_ref());
+                }
+            }
+        }
+        // depth 2: all (thorough) or a seeded slice (quick): a stride walk from a seeded offset
+        let mut rng = Rng::new(seed.wrapping_mul(7919).wrapping_add(17));
+        let offset = rng.below(d2_total);
+        // a stride coprime with the total visits every index once
+        let mut stride = 100_003 % d2_total;
+        while gcd(stride, d2_total) != 1 {
+            stride += 1;
+        }
+        for j in 0..d2_take {
+            if j % threads == tid {
+                let index = (offset + j * stride) % d2_total;
+                let w = depth2_at(rd1, index);
+                check_case(&mut model, ctx, r, &w, "depth2", false, index);
+            }
+        }
+        let mut rng = Rng::new(seed.wrapping_mul(1000).wrapping_add(tid as u64 + 1));
+        for j in 0..random_total / threads {
+            let depth = 2 + rng.below(5) as u32;
+            let w = random_expr(&mut rng, alpha, depth);
+            if w.len() > 6000 {
+                continue;
+            }
+            check_case(&mut model, ctx, r, &w, "random", false, j);
+            if j % 4 == 0 {
+                if let Ok(e) = astsexp::sexp_to_expr(&w) {
+                    end_to_end(&mut model, ctx, r, &astsexp::expr_to_sexp(&e), rule.as_ref());
+                }
+            }
+        }
+    });
+}
+
+fn gcd(a: usize, b: usize) -> usize {
+    if b == 0 {
+        a
+    } else {
+        gcd(b, a % b)
+    }
 }
